@@ -12,5 +12,6 @@ build/bin/gofacts /repo lean/GitSizer/Gen || cp lean/gen_baseline/Tables.lean le
 (cd lean && lake build GitSizer gsmodel) || true
 # warm the Go build cache for the driver and the binary
 python3 harness/overlay.py build/overlay.json
-(cd /repo && go build -tags verif -overlay /verif/build/overlay.json -o /verif/build/bin/drv ./internal/verifdrv && go build -o /verif/build/bin/git-sizer .) || true
+V="$PWD"
+(cd /repo && go build -tags verif -overlay "$V/build/overlay.json" -o "$V/build/bin/drv" ./internal/verifdrv && go build -o "$V/build/bin/git-sizer" .) || true
 echo setup done
